@@ -442,10 +442,15 @@ func (rs *runState) compareFinal() []string {
 	got := []string{}
 	for _, r := range dump {
 		a := r.([]interface{})
-		if _, ok := a[0].(int); !ok {
-			continue
+		v := a[2].([]interface{})
+		switch v[0] {
+		case "i":
+			got = append(got, fmt.Sprintf("[%v 0 [%v %v]]", a[0], v[1], v[2]))
+		case "v":
+			got = append(got, fmt.Sprintf("[%v %v %v]", a[0], a[1], v[3]))
+		default:
+			got = append(got, fmt.Sprint(a))
 		}
-		got = append(got, fmt.Sprint(a))
 	}
 	sort.Strings(want)
 	sort.Strings(got)
@@ -602,13 +607,13 @@ func cmdReplay(args []string) int {
 	backend.VerifSetRetryIntervals(0, time.Millisecond)
 	f, err := os.Open(*in)
 	if err != nil {
-		fmt.Fprintln(os.Stderr, err)
+		fmt.Println(err)
 		return 2
 	}
 	defer f.Close()
 	eng, err := kb.NewEngine(*engine)
 	if err != nil {
-		fmt.Fprintln(os.Stderr, err)
+		fmt.Println(err)
 		return 2
 	}
 	defer eng.Close()
@@ -617,7 +622,7 @@ func cmdReplay(args []string) int {
 	start := time.Now()
 	w, err := os.Create(*out)
 	if err != nil {
-		fmt.Fprintln(os.Stderr, err)
+		fmt.Println(err)
 		return 2
 	}
 	bw := bufio.NewWriterSize(w, 1<<20)
@@ -636,7 +641,7 @@ func cmdReplay(args []string) int {
 		}
 		var b behaviour
 		if err := json.Unmarshal([]byte(line), &b); err != nil {
-			fmt.Fprintln(os.Stderr, "bad behaviour:", err)
+			fmt.Println("bad behaviour:", err)
 			rep.Errors++
 			continue
 		}
